@@ -62,7 +62,7 @@ impl CaseInput for PkceFromCase {
         let m = self.method;
         let res = catch_unwind(AssertUnwindSafe(|| {
             let ver = PkceCodeVerifier::new(v);
-            let c = if m == 0 { PkceCodeChallenge::from_code_verifier_sha256(&ver) } else { PkceCodeChallenge::from_code_verifier_plain(&ver) };
+            let c = if m == 0 { PkceCodeChallenge::from_code_verifier_sha256(&ver) } else { crate::ops::common::plain_challenge(&ver) };
             (c.as_str().to_string(), c.method().as_str().to_string())
         }));
         let mut oracle = Vec::new();
@@ -128,7 +128,7 @@ impl CaseInput for PkceGenCase {
             let (c, v) = match api {
                 0 => PkceCodeChallenge::new_random_sha256_len(n),
                 1 => PkceCodeChallenge::new_random_sha256(),
-                _ => PkceCodeChallenge::new_random_plain(),
+                _ => crate::ops::common::new_random_plain(),
             };
             (v.secret().clone(), c.as_str().to_string(), c.method().as_str().to_string())
         }));
@@ -242,14 +242,14 @@ impl CaseInput for PkceFlowCase {
             .set_token_uri(TokenUrl::new("https://t.example/token".into()).unwrap());
         let (challenge, verifier) = match self.mode {
             0 => PkceCodeChallenge::new_random_sha256(),
-            1 => PkceCodeChallenge::new_random_plain(),
+            1 => crate::ops::common::new_random_plain(),
             2 => {
                 let v = PkceCodeVerifier::new(self.verifier.clone());
                 (PkceCodeChallenge::from_code_verifier_sha256(&v), v)
             }
             _ => {
                 let v = PkceCodeVerifier::new(self.verifier.clone());
-                (PkceCodeChallenge::from_code_verifier_plain(&v), v)
+                (crate::ops::common::plain_challenge(&v), v)
             }
         };
         let rts = [ResponseType::new("code id_token".into()), ResponseType::new("code token".into()), ResponseType::new(self.verifier.chars().take(5).collect())];
@@ -257,6 +257,11 @@ impl CaseInput for PkceFlowCase {
         if self.response_type > 0 {
             // whatever the response type, a supplied challenge must reach the server
             a = a.set_response_type(&rts[(self.response_type - 1) as usize]);
+        }
+        // sometimes a stale challenge / verifier is set first: the pair set LAST is the one that must reach the server
+        let stale = self.verifier.len() % 2 == 1;
+        if stale {
+            a = a.set_pkce_challenge(PkceCodeChallenge::from_code_verifier_sha256(&PkceCodeVerifier::new("s".repeat(50))));
         }
         let mut a = a.set_pkce_challenge(challenge);
         for (k, v) in &self.extras_in_url {
@@ -268,7 +273,11 @@ impl CaseInput for PkceFlowCase {
             rec.record(r);
             Err(FakeErr(0))
         };
-        let mut t = client.exchange_code(AuthorizationCode::new("code".into())).set_pkce_verifier(verifier);
+        let mut t = client.exchange_code(AuthorizationCode::new("code".into()));
+        if stale {
+            t = t.set_pkce_verifier(PkceCodeVerifier::new("s".repeat(50)));
+        }
+        let mut t = t.set_pkce_verifier(verifier);
         for (k, v) in &self.extras_in_body {
             t = t.add_extra_param(k.clone(), v.clone());
         }
